@@ -107,6 +107,12 @@ class Optional:
     pass
 class ClassVar:
     pass
+import typing_extensions
+class VwTDX(typing_extensions.TypedDict):   # the back-ported TypedDict (its own metaclass on this interpreter)
+    title: str
+    year: int
+class VwTDXChild(VwTDX, total=False):
+    rating: float
 class VwRecord:
     """dict-backed record: unknown attributes are looked up in the data (KeyError when absent)"""
     def __init__(self, **data):
@@ -152,7 +158,7 @@ CLASSY = [
     "VwGen[int]", "VwUnhashable", "VwAbstract",
     "VwNInt", "VwNStr", "VwNDate", "VwNList", "VwNDict", "VwNNInt", "VwNDC", "VwNPath", "VwNBytes", "VwNFloat",
     "VwAInt", "VwAList", "VwADict", "VwADate",
-    "Literal", "Final", "Union", "Optional", "ClassVar",
+    "Literal", "Final", "Union", "Optional", "ClassVar", "VwTDX", "VwTDXChild",
 ]
 SPECIAL = [
     "typing.Optional[int]", "int | None", "typing.Union[int, None]", "typing.Union[None, int]", "None | int",
@@ -246,7 +252,7 @@ NO_MODEL_CLASSY = ["isbuiltintype", "isstdlibtype", "isbuiltinsubtype", "isstdli
                    "resolve_supertype", "unwrap", "should_unwrap"]
 # signature helpers: their documented domain is user classes and functions
 SIG_PREDS = ["get_type_hints", "safe_get_params", "simple_attributes", "cached_signature"]
-SIG_OBJECTS = ["VwDC", "VwFDC", "VwSubDC", "VwNT", "VwTD", "VwPlain", "VwNoHints", "vw_func", "tuple[int, str]", "tuple[int, ...]"]
+SIG_OBJECTS = ["VwDC", "VwFDC", "VwSubDC", "VwNT", "VwTD", "VwTDX", "VwTDXChild", "VwPlain", "VwNoHints", "vw_func", "tuple[int, str]", "tuple[int, ...]"]
 SPECIAL_PREDS = ["isoptionaltype", "isuniontype", "isliteral", "isfinal", "isclassvartype", "isunresolvable", "isnonetype", "isforwardref",
                  "isgeneric", "issubscriptedgeneric", "isfixedtupletype", "origin", "args", "unwrap", "should_unwrap", "name", "qualname",
                  "resolve_supertype", "istypealiastype", "iscallable"]
@@ -260,7 +266,7 @@ EXACT_MODEL = {
     "isforwardref": lambda o: type(o) is typing.ForwardRef,
     "istypealiastype": lambda o: isinstance(o, typing.TypeAliasType),
     "isfixedtupletype": lambda o: typing.get_origin(o) is tuple and bool(typing.get_args(o)) and typing.get_args(o)[-1] is not Ellipsis,
-    "istypeddict": lambda o: typing.is_typeddict(o),
+    "istypeddict": lambda o: typing.is_typeddict(o) or __import__("typing_extensions").is_typeddict(o),
     "isnamedtuple": lambda o: isinstance(o, type) and issubclass(o, tuple) and hasattr(o, "_fields"),
     "isfrozendataclass": lambda o: bool(dataclasses.is_dataclass(o) and o.__dataclass_params__.frozen),
     "ishashable": lambda o: _hashable(o),
